@@ -83,4 +83,52 @@ theorem foreign_history_keeps_record (cfg : Cfg) (a' : Nat) : ∀ (qs : List Req
     rw [List.foldl_cons, foreign_history_keeps_record cfg a' rest _ (fun x hx => h x (List.mem_cons_of_mem _ hx))]
     exact stepReq_local cfg w q a' (h q List.mem_cons_self)
 
+/-- a request that can make a session hold a UE address: an establishment or a modification -/
+def Req.mayAllocate : Req → Bool
+  | .est _ _ _ => true
+  | .mod _ _ => true
+  | _ => false
+
+/-- **addresses are only taken by establishments and modifications** (and there only under the SEID the request names —
+`any_modification_keeps_pool`): after any other request every session that holds an address held it before -/
+theorem only_est_or_mod_take_addresses (cfg : Cfg) (w : World) (q : Req) (hq : q.mayAllocate = false) (k : Nat)
+    (h : k ∈ poolKeys (stepReq cfg w q).pool) : k ∈ poolKeys w.pool := by
+  cases q with
+  | assoc a node =>
+    have : (stepReq cfg w (.assoc a node)).pool = w.pool := by show (assocSetup w a node).pool = w.pool; unfold assocSetup; rw [setConn_pool]
+    rw [this] at h; exact h
+  | pfd a apps ok =>
+    have : (stepReq cfg w (.pfd a apps ok)).pool = w.pool := by
+      show (pfdManagement w a apps ok).pool = w.pool
+      unfold pfdManagement
+      cases ok with
+      | true => simp only [if_true]; rw [setConn_pool]
+      | false => rfl
+    rw [this] at h; exact h
+  | est a lseid r => simp [Req.mayAllocate] at hq
+  | mod a r => simp [Req.mayAllocate] at hq
+  | del a seid =>
+    have h' : k ∈ poolKeys (deleteSession cfg w a seid).1.pool := h
+    unfold deleteSession at h'
+    dsimp only at h'
+    split at h'
+    · exact h'
+    · rename_i s _
+      rw [setConn_pool] at h'
+      exact (keys_release w.pool w.teid s.lseid s.pdrs k h').1
+  | report a seid =>
+    have h' : k ∈ poolKeys (reportContextNotFound cfg w a seid).pool := h
+    unfold reportContextNotFound at h'
+    dsimp only at h'
+    split at h'
+    · exact h'
+    · rename_i s _
+      rw [setConn_pool] at h'
+      exact (keys_release w.pool w.teid s.lseid s.pdrs k h').1
+  | shutdown a =>
+    have h' : k ∈ poolKeys (shutdownConn cfg w a).pool := h
+    unfold shutdownConn at h'
+    dsimp only at h'
+    exact (foldl_drop_pool cfg _ w k h').1
+
 end Agent
